@@ -269,17 +269,15 @@ DoubleSupport::modulus(
     {
         return getNaN();
     }
-    else if (long(theLHS) == theLHS && long(theRHS) == theRHS)
-    {
-        return long(theLHS) % long(theRHS);
-    }
     else
     {
-        double  theDummy;
+        // The remainder of a truncating division, computed exactly.
+        // Converting to long is undefined for large values (and
+        // LONG_MIN % -1 traps), and scaling the fractional part of
+        // the quotient is inexact.
+        using std::fmod;
 
-        double  theResult = divide(theLHS, theRHS);
-
-        return std::modf(theResult, &theDummy) * theRHS;
+        return fmod(theLHS, theRHS);
     }
 }
 
